@@ -123,7 +123,7 @@ func TestC05(t *testing.T) {
 		longLivedHandle(t, r, tmp)
 		clientCacheModes(t, r, tmp)
 	}
-	r.Require("files_scanned", "scans_after_operation", "kek_checks", "kek_checks_after_reopen", "bit_flips", "truncations", "splices", "foreign_key_opens", "tampered_opens_rejected", "crash_point_scans", "temporaries_scanned", "mode_checks", "kek_checks_after_failed_write", "kek_checks_long_lived_handle", "client_cache_mode_checks", "creating_open_calls_observed", "cache_crash_point_scans", "backup_uploads_scanned", "audit_dir_mode_checks")
+	r.Require("files_scanned", "scans_after_operation", "kek_checks", "kek_checks_after_reopen", "bit_flips", "truncations", "splices", "foreign_key_opens", "tampered_opens_rejected", "crash_point_scans", "temporaries_scanned", "mode_checks", "kek_checks_after_failed_write", "kek_checks_long_lived_handle", "client_cache_mode_checks", "creating_open_calls_observed", "cache_crash_point_scans", "backup_uploads_scanned", "audit_dir_mode_checks", "external_stat_changes")
 	r.Rule("histories of 15-25 operations with marker names and values on a state directory holding the database and a real audit log, every file scanned after every operation, KEK call counter read after every operation (also after a reopen); tamper loop on saved files: every single-bit flip, every truncation length, version-field edits, DEK/DB splices between databases under the same and under a different KEK, foreign KEKs; crash points of a save scanned for plaintext in temporaries. Distinct = (operation kind, file kind) for scans and (tamper kind, outcome)")
 }
 
@@ -720,6 +720,21 @@ func longLivedHandle(t *testing.T, r *evid.Run, tmp string) {
 			d.Activate(su, fmt.Sprintf("k%d", i%7), 1)
 		case 4:
 			d.Delete(su, fmt.Sprintf("k%d", (i+3)%7))
+		}
+		// things that happen to a database file from outside: a backup tool resets its times, a sync agent
+		// moves a byte-identical copy back into place
+		if i%40 == 7 {
+			ts := time.Unix(1_600_000_000+int64(i), 0)
+			os.Chtimes(filepath.Join(dir, "db"), ts, ts)
+			r.Count("external_stat_changes", 1)
+		}
+		if i%130 == 11 {
+			if b, err := os.ReadFile(filepath.Join(dir, "db")); err == nil {
+				tmpf := filepath.Join(dir, "db.copy-from-outside")
+				os.WriteFile(tmpf, b, 0o600)
+				os.Rename(tmpf, filepath.Join(dir, "db"))
+				r.Count("external_stat_changes", 1)
+			}
 		}
 		r.Count("kek_checks_long_lived_handle", 1)
 		if c := kek.calls(); c != after {
